@@ -56,3 +56,38 @@ package v02
 //@     invariant lastIsNewest: rangeindex >= 0 && allDelegations[rangeindex].Name != ruleName ==> len(updatedDelegations) >= 1 && updatedDelegations[len(updatedDelegations) - 1] == allDelegations[rangeindex]
 //@     invariant wfKept: forall i :: 0 <= i && i < len(updatedDelegations) && !isAllow(updatedDelegations[i]) ==> wfRule(t, updatedDelegations[i])
 //@     invariant allowOnlyLast: forall i :: 0 <= i && i < len(updatedDelegations) && isAllow(updatedDelegations[i]) ==> rangeindex == len(allDelegations) - 1 && i == len(updatedDelegations) - 1
+
+//@ func [C13] (*TargetsMetadata).UpdateRule -> (err)
+//@   requires wf: wfTargets(t)
+//@   assigns t.Delegations.Roles, all(Delegation.Paths), all(Delegation.Role), fresh(Delegation.*), fresh(elems string), fresh(elems *Delegation), fresh(set.Set[string].contents), fresh(map map[string]struct{})
+//@   ensures allowRuleLast: err == nil ==> t.Delegations != nil && len(t.Delegations.Roles) >= 1 && isAllow(t.Delegations.Roles[len(t.Delegations.Roles) - 1])
+//@   ensures staysWellFormed: err == nil ==> forall i :: 0 <= i && i < len(t.Delegations.Roles) - 1 ==> wfRule(t, t.Delegations.Roles[i])
+//@   ensures refusedUnchanged: err != nil ==> sameRoles(t) && (forall i :: 0 <= i && i < len(t.Delegations.Roles) ==> t.Delegations.Roles[i].Paths == old(t.Delegations.Roles[i].Paths) && t.Delegations.Roles[i].Threshold == old(t.Delegations.Roles[i].Threshold) && t.Delegations.Roles[i].PrincipalIDs == old(t.Delegations.Roles[i].PrincipalIDs))
+//@   ensures sameRulesSameOrder: err == nil ==> len(t.Delegations.Roles) == old(len(t.Delegations.Roles)) && (forall i :: 0 <= i && i < len(t.Delegations.Roles) - 1 ==> t.Delegations.Roles[i] == old(t.Delegations.Roles[i]))
+//@   ensures updated: err == nil ==> forall i :: 0 <= i && i < len(t.Delegations.Roles) - 1 && t.Delegations.Roles[i].Name == ruleName ==> t.Delegations.Roles[i].Threshold == threshold && t.Delegations.Roles[i].Paths == rulePatterns
+//@   ensures othersUntouched: err == nil ==> forall i :: 0 <= i && i < len(t.Delegations.Roles) - 1 && t.Delegations.Roles[i].Name != ruleName ==> t.Delegations.Roles[i].Threshold == old(t.Delegations.Roles[i].Threshold) && t.Delegations.Roles[i].Paths == old(t.Delegations.Roles[i].Paths) && t.Delegations.Roles[i].PrincipalIDs == old(t.Delegations.Roles[i].PrincipalIDs)
+//@   ensures reservedRefused: strings.HasPrefix(ruleName, tuf.GittufPrefix) ==> err != nil
+//@   ensures badThresholdRefused: threshold < 1 ==> err != nil
+//@   loop 1:
+//@     invariant untouched: sameRoles(t)
+//@     invariant defined: forall j :: 0 <= j && j <= rangeindex ==> has(t.Delegations.Principals, authorizedPrincipalIDs[j])
+//@   loop 2:
+//@     invariant rolesKept: t.Delegations.Roles == old(t.Delegations.Roles) && t.Delegations.Principals == old(t.Delegations.Principals) && rangeindex < len(t.Delegations.Roles) - 1
+//@     invariant copied: len(allDelegations) == rangeindex + 1 && (forall i :: 0 <= i && i <= rangeindex ==> allDelegations[i] == t.Delegations.Roles[i])
+//@     invariant wfSoFar: forall i :: 0 <= i && i < len(t.Delegations.Roles) - 1 ==> wfRule(t, t.Delegations.Roles[i])
+//@     invariant allowStill: isAllow(t.Delegations.Roles[len(t.Delegations.Roles) - 1])
+//@     invariant updatedSoFar: forall i :: 0 <= i && i <= rangeindex && t.Delegations.Roles[i].Name == ruleName ==> t.Delegations.Roles[i].Threshold == threshold && t.Delegations.Roles[i].Paths == rulePatterns
+//@     invariant othersSoFar: forall i :: 0 <= i && i < len(t.Delegations.Roles) && (i > rangeindex || t.Delegations.Roles[i].Name != ruleName) ==> t.Delegations.Roles[i].Threshold == old(t.Delegations.Roles[i].Threshold) && t.Delegations.Roles[i].Paths == old(t.Delegations.Roles[i].Paths) && t.Delegations.Roles[i].PrincipalIDs == old(t.Delegations.Roles[i].PrincipalIDs)
+//@     invariant newSet: principalIDs != nil && fresh(principalIDs) && principalIDs.contents != nil && threshold >= 1 && threshold <= len(principalIDs.contents) && (forall k string :: has(principalIDs.contents, k) ==> has(t.Delegations.Principals, k))
+
+//@ func [C13] (*Delegations).removePrincipal -> (err)
+//@   requires d != nil
+//@   requires noNilRoles: forall i :: 0 <= i && i < len(d.Roles) ==> d.Roles[i] != nil
+//@   assigns map(d.Principals)
+//@   # a principal that a rule still names is never removed (so every principal a rule names stays defined)
+//@   ensures stillDefined: forall i :: 0 <= i && i < len(d.Roles) ==> forall k string :: d.Roles[i].PrincipalIDs != nil && has(d.Roles[i].PrincipalIDs.contents, k) && old(has(d.Principals, k)) ==> has(d.Principals, k)
+//@   ensures removedOnlyThatOne: forall k string :: k != principalID ==> has(d.Principals, k) == old(has(d.Principals, k))
+//@   ensures refusedUnchanged: err != nil ==> forall k string :: has(d.Principals, k) == old(has(d.Principals, k))
+//@   loop 1:
+//@     invariant unused: forall i :: 0 <= i && i <= rangeindex ==> d.Roles[i].PrincipalIDs == nil || !has(d.Roles[i].PrincipalIDs.contents, principalID)
+//@     invariant same: forall k string :: has(d.Principals, k) == old(has(d.Principals, k))
